@@ -140,6 +140,10 @@ class World:
                 rec = [(e.name, e.old, e.new, e.type) for e in evs]
             self.trace.append(("enter", wid, rec, self.snapshot(tidx)))
             if self.calls[wid] in self.faults.get(wid, ()):
+                if spec.get("fault_after_script"):
+                    # the callback does its work first and fails afterwards
+                    for k, (n, _v) in enumerate(spec["script"]):
+                        self.assign(tidx, NAMES[n], self.script_vals[wid][k], scripted=wid)
                 self.trace.append(("raise", wid))
                 raise Fault(f"watcher {wid} invocation {self.calls[wid]}")
             uw = spec.get("unwatch_on_call")
